@@ -77,13 +77,13 @@ func (c Cons) definitelyViolates(v string) bool {
 		return false
 	case "guid":
 		return !reGUID.MatchString(v) && len(v) != 32 && len(v) != 38 && len(v) != 45
-	case "minLen":
+	case "minLen", "minlen": // (the all-lower-case spellings are exported constants of the package as well)
 		return len(v) < atoi(c.Args[0]) && len([]rune(v)) < atoi(c.Args[0])
-	case "maxLen":
+	case "maxLen", "maxlen":
 		return len(v) > atoi(c.Args[0]) && len([]rune(v)) > atoi(c.Args[0])
 	case "len":
 		return len(v) != atoi(c.Args[0]) && len([]rune(v)) != atoi(c.Args[0])
-	case "betweenLen":
+	case "betweenLen", "betweenlen":
 		l, r := len(v), len([]rune(v))
 		lo, hi := atoi(c.Args[0]), atoi(c.Args[1])
 		return (l < lo || l > hi) && (r < lo || r > hi)
@@ -459,7 +459,8 @@ var consPool = []Cons{{"int", nil}, {"bool", nil}, {"float", nil}, {"alpha", nil
 	{"datetime", []string{"2006-01-02"}}, {"regex", []string{`^[abc]+x?$`}}, {"regex", []string{`[a-c]+`}}, {"regex", []string{`^\d{2}-\d{2}$`}},
 	{"regex", []string{`^[a-z.]+$`}}, {"regex", []string{`^a/b$`}}, {"even", nil}, {"isEven", nil},
 	// constraint data is case-sensitive text whatever the routing configuration says
-	{"regex", []string{`^\D+$`}}, {"regex", []string{`^[A-Z]+$`}}, {"regex", []string{`^\w\W$`}}, {"datetime", []string{"Jan-02"}}}
+	{"regex", []string{`^\D+$`}}, {"regex", []string{`^[A-Z]+$`}}, {"regex", []string{`^\w\W$`}}, {"datetime", []string{"Jan-02"}},
+	{"minlen", []string{"3"}}, {"maxlen", []string{"2"}}, {"betweenlen", []string{"2", "3"}}}
 
 var valPool = []string{"1", "12", "15", "7", "100", "-3", "+4", "true", "x", "ab", "abc", "abcd", "1.5", "2020-02-03",
 	"CD2C1638-1638-72D5-1638-DEADBEEF1638", "a1", "é", "ééé", "0", "18", "a-b", "a.b", "", "12a", ":id", "<int>", "12-34", "b", "cab", "a/b", "16", "4", "99999999999999999999",
